@@ -107,7 +107,7 @@ func VerifyFunc(ld *Loader, cs *Contracts, key string) (res *FuncResult) {
 		ex.finish(res)
 	}()
 	ex.prepare(decl)
-	st := &State{vars: map[types.Object]Val{}, heap: map[string]string{}, ghost: map[string]string{}, extra: map[string]Val{}, compEpoch: map[string]int{}}
+	st := &State{vars: map[types.Object]Val{}, heap: map[string]string{}, ghost: map[string]string{}, extra: map[string]Val{}, compEpoch: map[string]int{}, pureInst: map[string]bool{}}
 	alloc0 := ex.fresh("alloc0", SInt)
 	st.assume(app(">=", alloc0, "0"))
 	st.alloc = alloc0
